@@ -837,14 +837,24 @@ def check_output_requests(ctx, d, bases, res):
                 cand += [(o, u) for u in o['units'] if u not in ('', o['cur'][1]) and to_unit(d, 1, o['cur'][1], u) is not None]
         rnd.shuffle(cand)
         seen = set()
+        profiles = {rec['name'] for c in r['snap'].values() if isinstance(c, dict) for rec in c.values()
+                    if isinstance(rec, dict) and rec.get('k') == 'out' and isinstance(rec.get('value'), list) and len(rec['value']) > 1}
+        done = set()
+        for o, u in cand:            # every profile (table) output once, in one other unit
+            if o['name'] in profiles and o['name'] not in done:
+                done.add(o['name'])
+                seen.add((o['name'], u))
+                reqs.append({'base': bi, 'out': o, 'u': u, 'lines': list(base) + [(f'Units:{o["name"]}', u)]})
         for o, u in cand:
+            if (o['name'], u) in seen:
+                continue
             k = (o['name'], u) if not ctx.quick else (o['utype'], o['cur'][1], u, len([1 for x in seen if x[:3] == (o['utype'], o['cur'][1], u)]) < 2 and o['name'])
             if k in seen or (ctx.quick and k[3] is False):
                 continue
             seen.add(k)
             reqs.append({'base': bi, 'out': o, 'u': u, 'lines': list(base) + [(f'Units:{o["name"]}', u)]})
     rres = runner.run_many(ctx, [runner.params_to_text(x['lines']) for x in reqs])
-    seenk, effective = set(), 0
+    seenk, effective, tables = set(), 0, 0
     for x, r in zip(reqs, rres):
         b = res[x['base']]
         o = x['out']
@@ -858,7 +868,16 @@ def check_output_requests(ctx, d, bases, res):
                             observed={'error': str(r['error'])[:300]})
             continue
         bad, changed = report_diffs(d, b['report'], r['report'], scalar_only=True, requested=x['u'])
+        tbad, tchanged = more.table_diffs(sys.modules[__name__], d, b['report'], r['report'], x['u'], o['cur'][1])
         effective += 1 if changed else 0
+        tables += 1 if tchanged else 0
+        for kind, where, xl, yl in tbad[:2]:
+            key = f'run-output:stale-header:{o["name"]}' if kind == 'stale-header' else f'run-output:{kind}:{k}:{o["name"]}'
+            if key not in seenk:
+                seenk.add(key)
+                ctx.violate('property', key, f'with "Units:{o["name"]}, {x["u"]}" the table {where} shows "{yl}" where it showed "{xl}": ' +
+                            ('the column is converted but its header keeps the old unit' if kind == 'stale-header' else
+                             'not the old column times the conversion factor under the requested unit'), inp=inp, expected=xl, observed=yl)
         for label, xl, yl, kind in bad[:3]:
             key = f'run-output:stale-label:{label}' if kind == 'stale-label' else f'run-output:line:{k}:{label}'
             if key not in seenk:
@@ -866,7 +885,7 @@ def check_output_requests(ctx, d, bases, res):
                 ctx.violate('property', key, f'with "Units:{o["name"]}, {x["u"]}" the report says "{yl}" where it said "{xl}": ' +
                             ('the value is converted but the label is not' if kind == 'stale-label' else 'not the same quantity under the new label'),
                             inp=inp, expected=xl, observed=yl)
-    ctx.count('run-output-requests', evaluations=len(reqs), nontrivial_keys=[(x['out']['name'], x['u']) for x in reqs], changed_a_report_line=effective)
+    ctx.count('run-output-requests', evaluations=len(reqs), nontrivial_keys=[(x['out']['name'], x['u']) for x in reqs], changed_a_report_line=effective, changed_a_table=tables)
 
 
 # ---------------------------------------------------------------------------------------------------------------
